@@ -14,7 +14,8 @@
      object/state.go   Environment.Get / makeRef / SetNoChecks / update / Delete / NewFunctionEnvironment:
                        which lookups create References, which of them count as misses (constants and functions
                        found in the ROOT environment do not; anything found in an enclosing function's frame does;
-                       every write through a reference does), same-function recursion parenting on the caller frame.
+                       every write through a reference does), same-closure recursion parenting on the caller frame
+                       (a definition index stands for one function literal: the harness shares equal literals).
    The miss counter of a frame is only ever compared "moved / did not move" for the frame of the running call,
    so it is threaded functionally: every evaluation returns the number of misses it added to the CURRENT frame
    ([r_miss]); the counter at any time is [before + r_miss].  The cantCache flag is no longer read by the
@@ -463,6 +464,15 @@ Fixpoint cache_put (c : list centry) (n : centry) : list centry :=
 (* ---- evaluation ---- *)
 Definition err_res : res := val_res (VErr err_msg).
 
+(* NewFunctionEnvironment: a call is a self-recursive call (and is then parented on the CALLING frame, grol issue 47)
+   when the callee is the same closure as the function running in the calling frame: same literal, same captured
+   environment (it used to compare the key text; Environment.cacheKey is now only informative) *)
+Definition same_fn (cur : frame) (d envd : nat) : bool :=
+  match fr_fn cur with
+  | Some (d', e') => Nat.eqb d' d && Nat.eqb e' envd
+  | None => false
+  end.
+
 Section WithEval.
   (* the evaluator with one unit of fuel less *)
   Variable ev : state -> nat -> expr -> res * state.
@@ -518,7 +528,7 @@ Section WithEval.
                 match nth_error (st_heap st) fr with
                 | None => (stuck_res, st)
                 | Some cur =>
-                    let parent := if bytes_eqb (fr_key cur) key then fr else envd in
+                    let parent := if same_fn cur d envd then fr else envd in
                     match nth_error (st_heap st) parent with
                     | None => (stuck_res, st)
                     | Some pf =>
@@ -658,9 +668,8 @@ Fixpoint eval (fuel : nat) (on : bool) (defs : list fdef) (st : state) (fr : nat
       | EIf c a b =>
           let (rc, st1) := ev st fr c in
           match r_oc rc with
-          | OVal (VBool t) =>
-              if r_ref rc then (with_oc rc (OVal (VErr err_msg)) false, st1)   (* a Reference is not object.TRUE *)
-              else let (rb, st2) := ev st1 fr (if t then a else b) in (then_res rc rb, st2)
+          | OVal (VBool t) =>    (* the condition is dereferenced (object.Value) before the test *)
+              let (rb, st2) := ev st1 fr (if t then a else b) in (then_res rc rb, st2)
           | OVal _ => (with_oc rc (OVal (VErr err_msg)) false, st1)              (* condition is not a boolean *)
           | _ => (rc, st1)
           end
